@@ -337,6 +337,9 @@ func meshHistories(c *Ctx, im *Impl) {
 		}
 		consts := FastConsts()
 		consts.RouteUpdate = time.Duration(150+r.Intn(150)) * time.Millisecond
+		if t == 0 {
+			consts.RouteUpdate = 80 * time.Millisecond // many updates before the restart of history 0
+		}
 		m := NewMesh(consts)
 		alive := map[string]bool{}
 		for _, id := range tp.names {
@@ -360,20 +363,31 @@ func meshHistories(c *Ctx, im *Impl) {
 			links[[2]int{a, b}] = l
 			tp.edges[[2]int{a, b}] = cost
 		}
-		for i := 1; i < n; i++ {
-			connect(r.Intn(i), i, float64(1+r.Intn(4)))
-		}
-		for k := 0; k < n; k++ {
-			connect(r.Intn(n), r.Intn(n), float64(1+r.Intn(4)))
+		if t == 0 {
+			// a line: every inner node is on the only path between its two sides
+			for i := 1; i < n; i++ {
+				connect(i-1, i, 1)
+			}
+		} else {
+			for i := 1; i < n; i++ {
+				connect(r.Intn(i), i, float64(1+r.Intn(4)))
+			}
+			for k := 0; k < n; k++ {
+				connect(r.Intn(n), r.Intn(n), float64(1+r.Intn(4)))
+			}
 		}
 		cycles := len(tp.edges) >= n
 		// event history
 		var events []string
-		cuts := 0
+		cuts, restarts := 0, 0
 		ne := 2 + r.Intn(5)
 		for e := 0; e < ne; e++ {
 			time.Sleep(time.Duration(r.Intn(250)) * time.Millisecond)
-			switch r.Intn(4) {
+			ev := r.Intn(5)
+			if t == 0 {
+				ev = 3 // the first history is a restart of a well-connected, long-lived node and nothing else
+			}
+			switch ev {
 			case 0, 1: // cut a link
 				for k, l := range links {
 					l.Cut()
@@ -387,6 +401,51 @@ func meshHistories(c *Ctx, im *Impl) {
 				a, b := r.Intn(n), r.Intn(n)
 				connect(a, b, float64(1+r.Intn(4)))
 				events = append(events, fmt.Sprintf("link %d-%d", a, b))
+			case 3: // restart a node that has been up for a while: new epoch, sequence numbers start again,
+				// its links come back one after the other (so its adjacency changes after its first flood)
+				if restarts < 1 && len(alive) > 2 {
+					i := r.Intn(n)
+					if t == 0 { // the node with the most links
+						best := -1
+						for cand := 0; cand < n; cand++ {
+							d := 0
+							for k := range links {
+								if k[0] == cand || k[1] == cand {
+									d++
+								}
+							}
+							if d > best {
+								best, i = d, cand
+							}
+						}
+					}
+					id := tp.names[i]
+					if alive[id] {
+						restarts++
+						var nbrs [][2]int
+						for k := range links {
+							if k[0] == i || k[1] == i {
+								nbrs = append(nbrs, k)
+							}
+						}
+						time.Sleep(60 * consts.RouteUpdate) // a long-lived node: its sequence number is high
+						m.StopNode(id)
+						for _, k := range nbrs {
+							delete(links, k)
+							delete(tp.edges, k)
+						}
+						time.Sleep(1100 * time.Millisecond) // the epoch has one-second granularity
+						m.AddNode(id)
+						for _, k := range nbrs {
+							connect(k[0], k[1], float64(1+r.Intn(4)))
+							time.Sleep(300 * time.Millisecond) // longer than the 100 ms flood delay: one update per link
+						}
+						if len(nbrs) == 0 {
+							connect(i, (i+1)%n, 1)
+						}
+						events = append(events, "restart "+id)
+					}
+				}
 			default: // stop a node
 				if len(alive) > 2 {
 					i := r.Intn(n)
@@ -407,7 +466,7 @@ func meshHistories(c *Ctx, im *Impl) {
 		}
 		// bounded number of route-update periods after the last event
 		g := tp.graphOf(alive)
-		ok := WaitFor(12*consts.RouteUpdate+2*time.Second, func() bool { return meshAgrees(m, g, alive, nil) })
+		ok := WaitFor(12*consts.RouteUpdate+time.Second, func() bool { return meshAgrees(m, g, alive, nil) })
 		rec := map[string]interface{}{"nodes": n, "events": events, "final_edges": fmt.Sprint(tp.edges)}
 		if !ok {
 			var why []string
